@@ -375,6 +375,7 @@ class Client:
         except (core.Escape, core.Inconclusive, core._Abort, core.Counterexample):
             raise
         except Exception as e:
+            core.check_leak(e)
             self.errors.append((what, type(e).__name__, describe_exc(e)))
             return None
 
